@@ -392,3 +392,5 @@ _quick("C06", "C06_msupdate", "a hold with a millisecond expiry E in {1500, 2999
 _quick("C08", "C08_valappend", "a log of two valued records (symbolic record bytes) whose value file is cut at every byte of the second value frame (0..8 of its 9 bytes on disk); first restart, the append file reopened for writing, one more valued record persisted and flushed, second restart: the first and the new record with their own values, the torn record not brought back from partial bytes", ["-witness", "1"], reach=["reopened"])
 
 _quick("C20", "C20_restructure", "LockQueue, LockCommandQueue and LockManagerQueue with geometry (1,8,2) and (4,8,2): filled with 7 / 15 / 30 elements and the tail taken back by 0 / 1 / 3 PopRight, or filled with 40, drained, Reset and refilled with 3 / 8 / 14; all but 0..2 elements popped; Restructuring; 5 / 20 / 45 more pushes across node boundaries; drain: every element and length as a plain deque's", ["-witness", "40"])
+
+_quick("C11", "C11_reentry", "a hold (Rcount 3) taken with the require-ack flag and fully acknowledged (leader flush + one follower, mode all); the same LockId locks a second level with the require-ack flag, with or without the leader's flush following: no SUCCED for the second level while no follower has acknowledged its record", ["-witness", "1"], reach=["first-level-held"])
